@@ -492,12 +492,18 @@ elif fn == "t_split":
     tp = np.array({col("tp")!r})
     seg0 = [0] * (n // 2) + [1] * (n - n // 2)
     i = mk({{"force": f, "tip position": tp}}, seg=seg0)
+    kk = {int(float(model.get("idturn", -1)))}
+    if kk >= 0:
+        # the turning-point search is a contract stub in the harness (its own
+        # task decides it): return the solver's index here as well
+        pp.find_turning_point = lambda *aa, **kw: kk
     with warnings.catch_warnings(record=True) as wl:
         warnings.simplefilter("always"); pp.preproc_correct_split_approach_retract(i)
     seg = list(i["segment"])
     if not any(issubclass(x.category, pp.CannotSplitWarning) for x in wl):
         sw = sum(1 for j in range(1, n) if seg[j] != seg[j - 1])
         if sw > 1 or not (seg[0] == 0 or all(v == 1 for v in seg)): bad.append("segment %r" % seg)
+        if kk >= 0 and seg != [0] * kk + [1] * (n - kk): bad.append("segment switches at %r, turning point is %d" % (seg, kk))
     elif seg != seg0: bad.append("segment changed although splitting was refused")
 elif fn == "t_smooth":
     tp = np.array({col("tp")!r}); na = a["na"]
